@@ -308,7 +308,7 @@ def run_file_seed(seed_i, tier, part):
             if pf is None:
                 c[f"probe:no_site_for_{kind}"] += 1
                 continue
-            scn = dict(base, rec_faults=pf[0], file_faults=pf[1])
+            scn = dict(base, rec_faults=pf[0], file_faults=pf[1], planned={"kind": kind, "record": k})
             if base["config"] == "packaged" and (k + len(kind)) % 3 == 0:
                 if enc in ("latin_1", "cp500") and (k + len(kind)) % 2 == 0:
                     scn["tool"] = "mideu"
@@ -369,37 +369,79 @@ def judge_scenario(scn):
     return judge(scn)[0]
 
 
+def replan(scn):
+    """rec_faults / file_faults recomputed for the scenario's `planned` (kind, record) on its current messages"""
+    pl = scn.get("planned")
+    if not pl:
+        return scn
+    base = dict(scn, rec_faults=[], file_faults=[])
+    image, stored = corrupt.file_image(base)
+    k = pl["record"]
+    if not (1 <= k <= len(stored)):
+        return None
+    cfg = msgcodec.effective_cfg(scn.get("config", "packaged"))
+    enc = scn.get("encoding") or "latin_1"
+    rec = stored[k - 1][4:]
+    rd = refiso.ref_read(rec, cfg, enc, False)
+    if rd.cls != refiso.ACCEPT:
+        return None
+    offsets = []
+    p = 0
+    for st in stored:
+        offsets.append(p)
+        p += len(st)
+    pf = plan_fault(pl["kind"], k, rec, rd, enc, cfg, offsets, bool(scn.get("blocked")))
+    if pf is None:
+        return None
+    return dict(scn, rec_faults=pf[0], file_faults=pf[1])
+
+
 def minimise(scn, oracle):
-    """fewer records around the faulted one (renumbering k), fewer message keys in the other records"""
+    """fewer records around the faulted one (renumbering k), fewer keys per message; the planned fault is
+    re-planned on every candidate because its offsets move with the messages"""
     from .. import shrink
-    dl = shrink.Deadline(90)
+    dl = shrink.Deadline(120)
 
     def ok(c):
         try:
-            return any(f["oracle"] == oracle for f in judge_scenario(c))
+            c = replan(c)
+            return c is not None and any(f["oracle"] == oracle for f in judge_scenario(c))
         except Exception:
             return False
 
     cur = dict(scn)
-    for alt in ({"blocked": False},):
-        cand = dict(cur, **alt)
-        if cand != cur and not cur.get("file_faults") and ok(cand):
+    if not cur.get("planned") or not ok(cur):
+        return scn
+    k = cur["planned"]["record"]
+    if cur.get("blocked") and ok(dict(cur, blocked=False)):
+        cur = dict(cur, blocked=False)
+    if cur.get("tool") and ok({x: y for x, y in cur.items() if x != "tool"}):
+        cur = {x: y for x, y in cur.items() if x != "tool"}
+    while len(cur["messages"]) > k and not dl.over():
+        cand = dict(cur, messages=cur["messages"][:-1])
+        if ok(cand):
             cur = cand
-    if cur.get("rec_faults") and not cur.get("file_faults"):
-        k = cur["rec_faults"][0]["record"]
-        # drop records after k, then records before k (shifting k)
-        while len(cur["messages"]) > k and not dl.over():
-            cand = dict(cur, messages=cur["messages"][:-1])
-            if ok(cand):
-                cur = cand
-            else:
-                break
-        while k > 1 and not dl.over():
-            cand = dict(cur, messages=cur["messages"][1:],
-                        rec_faults=[dict(cur["rec_faults"][0], record=k - 1)])
-            if ok(cand):
-                cur = cand
-                k -= 1
-            else:
-                break
-    return cur
+        else:
+            break
+    while k > 1 and not dl.over():
+        cand = dict(cur, messages=cur["messages"][1:], planned=dict(cur["planned"], record=k - 1))
+        if ok(cand):
+            cur = cand
+            k -= 1
+        else:
+            break
+    for i in range(len(cur["messages"])):
+        if dl.over():
+            break
+        msg = cur["messages"][i]
+        keys = [x for x in msg if x != "MTI"]
+
+        def tk(ks, i=i, msg=msg):
+            ms = list(cur["messages"])
+            ms[i] = {x: y for x, y in msg.items() if x == "MTI" or x in ks}
+            return ok(dict(cur, messages=ms))
+        ks = shrink.ddmin(keys, tk, dl)
+        ms = list(cur["messages"])
+        ms[i] = {x: y for x, y in msg.items() if x == "MTI" or x in ks}
+        cur = dict(cur, messages=ms)
+    return replan(cur) or scn
